@@ -13,6 +13,47 @@ fn main() {
         }
         return;
     }
+    if args.len() >= 3 && args[1] == "corpus" {
+        // seed corpora for the fuzz targets: valid documents for the parser target, pseudo-random tapes for the others
+        use omaha_verif::{jsongen, respgen, tape::Tape};
+        let root = std::path::PathBuf::from(&args[2]);
+        let mut x: u64 = 0x9E3779B97F4A7C15;
+        let mut next = move || {
+            x ^= x << 13;
+            x ^= x >> 7;
+            x ^= x << 17;
+            x
+        };
+        for target in ["fuzz_parse_response", "fuzz_cup_etag", "fuzz_version", "fuzz_sim"] {
+            let d = root.join(target);
+            std::fs::create_dir_all(&d).unwrap();
+            for i in 0..48 {
+                let tape: Vec<u32> = (0..400).map(|_| next() as u32).collect();
+                let bytes: Vec<u8> = if target == "fuzz_parse_response" {
+                    let mut t = Tape::new(tape);
+                    let doc = respgen::gen_xresp(&mut t);
+                    let mut b = jsongen::to_bytes(&respgen::render(&doc, next()), next(), (i % 2) as u8);
+                    if i % 5 == 0 {
+                        let mut p = b")]}'\n".to_vec();
+                        p.append(&mut b);
+                        b = p;
+                    }
+                    b
+                } else if target == "fuzz_version" {
+                    ["1.2.3.4", "0", "4294967295.0.1", "1..2", "+1.2", "1.2.3.4.5", " 1", "007.1"][i % 8].as_bytes().to_vec()
+                } else {
+                    let mut b: Vec<u8> = tape.iter().flat_map(|w| w.to_le_bytes()).collect();
+                    if target == "fuzz_sim" {
+                        b.insert(0, i as u8);
+                    }
+                    b.truncate(1200);
+                    b
+                };
+                std::fs::write(d.join(format!("seed-{i:02}")), bytes).unwrap();
+            }
+        }
+        return;
+    }
     if args.len() < 3 {
         usage();
     }
